@@ -2,7 +2,7 @@
 
 (T) harness/extract/delshape.py renders the statement lists of the deletion code (Container / SectionContainer /
 SourceContainer / LinkContainer.__delitem__, the visitor of H5Group.delete_all, the parameters of H5Group.delete, every
-container constructor call, the metadata / link / extents deleters, the shape of util/find.py) as
+container constructor call, the metadata / link / extents deleters, the statements of util/find.py's finders) as
 NixModel/Generated/DeleteShape.lean; Store/DelShape.lean interprets them and Props/C04 proves that their meaning is the
 hand-written model (`*_follows_source`, `source_delete_gone`), so an edit of that code breaks a named theorem or no
 longer translates.
@@ -61,6 +61,7 @@ THEOREMS = [
     "Nix.C04.containerInfo_follows_source",
     "Nix.C04.containerInfo_only_source",
     "Nix.C04.role_clear_follows_source",
+    "Nix.C04.find_follows_source",
     "Nix.C04.subtree_follows_source",
     "Nix.C04.source_delete_gone",
     "Nix.C04.delete_step_gone",
@@ -96,9 +97,11 @@ ASSUMPTIONS = [
     "(T) the translator harness/extract/delshape.py accepts only the statement forms listed in its docstring "
     "(anything else: broken tie); isinstance(item, Entity) is read as 'an entity object that is not a Feature', "
     "isinstance(item, self._itemclass) as 'an object of the container's item kind'; the body of H5Group.delete, "
-    "H5Group.__delitem__ / __contains__, util/find.py and find_sections / find_sources are compared with templates "
-    "(only the default of delete_if_empty and the depth bound are parameters), so `findKeys` gives a meaning to that "
-    "one shape only; the construction of `targets` in delete_all (the .group / .dataset of every handle passed) and "
+    "H5Group.__delitem__ / __contains__ and the wrappers find_sections / find_sources (defaults filtr=lambda _: True, "
+    "limit=None -> sys.maxsize) are compared with templates (only the default of delete_if_empty and the depth bound "
+    "are parameters); util/find.py is translated statement by statement (Store/FindProg.lean interprets fifo / result / "
+    "level / child, `limit=None` is read as 'no depth reaches sys.maxsize'; a statement form not listed in the "
+    "translator's docstring - a seen-set, `continue`, pop() from the back - is a broken tie); the construction of `targets` in delete_all (the .group / .dataset of every handle passed) and "
     "the single assignment `self.h5obj = self.group` / `self.dataset` at the end of H5Group / H5DataSet.__init__ are "
     "compared with templates; h5py's visititems is taken to run the visitor on every group reachable from the file root",
     "the error class of a refused `del container[<entity object>]` is compared as 'refused' only (a Feature whose "
@@ -122,11 +125,16 @@ MANIFEST = {
                   "entity (or, for sections / sources, anything in its subtree), everything reachable only through "
                   "it is unreachable from the root, every other link list keeps its remaining entries in order and "
                   "all attributes - in particular an id-keeping copy of the deleted entity keeps every link to it "
-                  "(deletion is by HDF5 object, frame_full / delete_frame / delete_exact for every graph); unlinking / "
+                  "(deletion is by HDF5 object, frame_full / delete_frame / delete_exact for every graph); an entity object "
+                  "handed to a container that does not hold it is deleted itself (or refused, wrong class) and the "
+                  "container's namesake stays, a name / id / position addresses a member only (delete_by_object*, "
+                  "delete_by_key_member); the same after every history incl. copies within the file (Op5); unlinking / "
                   "clearing a role link removes one link only. Tied to the code (T) by an ast translator that renders the statement lists of "
                   "the deletion code (the __delitem__ variants, the delete_all visitor, H5Group.delete, the container "
-                  "constructor table, the role-link deleters, util/find.py) into Generated/DeleteShape.lean, with "
-                  "kernel-checked theorems that the meaning of these statement lists is the model, (C) by "
+                  "constructor table, the role-link deleters, the bodies of util/find.py's _find_sections / "
+                  "_find_sources statement by statement) into Generated/DeleteShape.lean, with "
+                  "kernel-checked theorems that the meaning of these statement lists is the model (the finders, run "
+                  "as written, return the model's breadth-first collection for every graph, filter and fuel), (C) by "
                   "differential execution of deletion-heavy histories incl. data frames, dimension links and "
                   "(mostly id-keeping) copies followed by deletions on either side "
                   "(HDF5-level dump compared after every mutation) and by an implementation-side walk-difference "
